@@ -285,15 +285,23 @@ def one_schema(run, i, tmp):
         moddecls, rest = decls[:cut], decls[cut:]
         d = os.path.join(tmp, "s%d" % i)
         os.makedirs(d, exist_ok=True)
-        open(os.path.join(d, modname + ".fcp"), "w").write(S.print_schema(moddecls))
+        modtext = S.print_schema(moddecls)
+        if i % 8 == 0:
+            modtext = " ".join(modtext.split("\n"))  # every declaration of the module on ONE source line
+            run.count("one_line_modules")
+        open(os.path.join(d, modname + ".fcp"), "w").write(modtext)
         main_ok = S.print_schema([{"kind": "mod", "path": [modname]}] + rest)
         open(os.path.join(d, "main.fcp"), "w").write(main_ok)
         try:
             res, lg = PC.parse_file(os.path.join(d, "main.fcp"))
             if res.is_err():
-                run.violation("reference to a type of a module imported earlier rejected: %r" % (res.err(),), {"main": main_ok, "module": S.print_schema(moddecls)})
+                run.violation("reference to a type of a module imported earlier rejected: %r" % (res.err(),), {"main": main_ok, "module": modtext})
             else:
-                n = walk_tree(run, res.unwrap(), {"main": main_ok})
+                n = walk_tree(run, res.unwrap(), {"main": main_ok, "module": modtext})
+                got_names = sorted(x.name for x in res.unwrap().structs + res.unwrap().enums)
+                want_names = sorted(x["name"] for x in decls if x["kind"] in ("struct", "enum"))
+                if got_names != want_names:
+                    run.violation("schema importing a module declares types %s, the files declare %s" % (got_names, want_names), {"main": main_ok, "module": modtext})
                 run.count("reference_leaves_walked", n)
                 run.count("module_positive")
                 run.case(sig="pos|module")
@@ -322,12 +330,17 @@ def module_cause(run, i, tmp):
     nested = r.random() < 0.5
     os.makedirs(os.path.join(d, "sub"))
     body = S.print_schema(m)
+    importer_decls = ""
+    if kind == "undeclared" and r.random() < 0.6:
+        # the missing type IS declared - by the importing file, before the mod line (or by a sibling
+        # module imported earlier): a module only sees what it declares or imports itself
+        importer_decls = "enum %s { A%s = 0, B%s = 1, }\n" % (tname, tname, tname)
     files = {"sub/inner.fcp": body}
     if nested:
         files["outer.fcp"] = 'version: "3"\nmod sub.inner;\n'
-        files["main.fcp"] = 'version: "3"\nmod outer;\nstruct Tail%dQ { a @0: u8, }\n' % i
+        files["main.fcp"] = 'version: "3"\n' + importer_decls + 'mod outer;\nstruct Tail%dQ { a @0: u8, }\n' % i
     else:
-        files["main.fcp"] = 'version: "3"\nmod sub.inner;\nstruct Tail%dQ { a @0: u8, }\n' % i
+        files["main.fcp"] = 'version: "3"\n' + importer_decls + 'mod sub.inner;\nstruct Tail%dQ { a @0: u8, }\n' % i
     for rel, txt in files.items():
         open(os.path.join(d, rel), "w").write(txt)
     case = {"files": files, "mutation": kind + " inside a module", "expected_missing_type": (tname, sname)}
@@ -471,7 +484,7 @@ def run(run):
 
 
 def conclude(run):
-    run.require("positive_trees_walked", "reference_leaves_walked", "negative_parsed", "negative_rejected_well", "module_positive", "module_negative", "same_basename_module_trees", "module_cause_named", "collision_references_consistent")
+    run.require("positive_trees_walked", "reference_leaves_walked", "negative_parsed", "negative_rejected_well", "module_positive", "module_negative", "same_basename_module_trees", "module_cause_named", "collision_references_consistent", "one_line_modules")
 
 
 def replay(run, case):
